@@ -6,6 +6,7 @@ import (
 )
 
 var checks = map[string]func(*Ctx){
+	"C01": runC01,
 	"C02": runC02,
 	"C03": runC03,
 	"C05": runC05,
